@@ -31,7 +31,7 @@ PART = "oraclesvc"
 SUB = "oraclesvc"
 JUDGED = ("LedgersAgree", "BlockAccepted", "FinishOnce")
 GOOD_Q = ("base", "backup", "restart", "redesig", "fees", "attr", "forge", "fast")
-GOOD_T = GOOD_Q + ("big", "redesig3")
+GOOD_T = GOOD_Q + ("restart3", "forge4", "big", "big3", "redesig3")
 DEVIATIONS = ("BugVubCurrent", "BugNonceLocal", "BugFeeLocal", "BugSigTwice", "BugNonDesig", "BugNoSigCheck", "BugNoReverify",
               "BugPoolTwo", "BugBothSent", "BugBackupWindow", "RealResendMain", "RealStaleBuild", "RealIntakeRace", "RealAttrFee")
 # observations known on the current tree (pred, ground): behaviour of the service the lead knows about; anything else is
@@ -55,6 +55,9 @@ def model_stage(ctx):
     q = ctx.quick()
     ctx.spec_scratch(SUB)
     good = GOOD_Q if q else GOOD_T
+    if os.environ.get("VERIF_OSVC_DEV"):     # development aid (mutation runs of the builder): the models do not depend on the tree
+        ctx.tlc_mc(SUB, "MCOracleSvc.tla", "MC_base.cfg", timeout=900)
+        return
     errors, caught = [], []
     w = max(2, ctx.ncpu // 4)
 
@@ -123,10 +126,10 @@ def ground_of(pred, ev, idx):
     else:
         s = None
     if s is not None:
+        if ev.get("event") == "tick" and s.get("which") == "main" and pred in ("SentQuorum", "SingleSend", "SentAccepted") and s.get("pushes", 9) < len(s.get("keys") or []):
+            return "resend-main-after-backup"
         if sorted(s.get("keys") or []) != sorted(s.get("desig") or []):
             return "stale-designation"
-        if ev.get("event") == "tick" and s.get("which") == "main" and pred in ("SentQuorum", "SingleSend", "SentAccepted"):
-            return "resend-main-after-backup"
         if s.get("fast"):
             return "no-fetch-intake-window"
         if s.get("err") == "expired":
@@ -213,8 +216,8 @@ def run_ext(ctx):
         pred, _, g = key.partition("/")
         if (pred, g) not in KNOWN_BEYOND:
             new[key] = n
-        if len(ctx.spec_drift) < 20:
-            ctx.spec_drift.append(samples[key])
+        ctx.spec_drift.insert(0, samples[key])      # one sample per (predicate, ground), ahead of the model-vs-code drift notes
+    del ctx.spec_drift[20:]
     ctx.extra["oraclesvc_beyond_new"] = new
     if beyond:
         vlib.log("oracle service: observations beyond the statement of C01 (not verdicts): %s" % json.dumps(beyond, sort_keys=True))
